@@ -144,6 +144,9 @@ def run(cid, tier="quick", seed=0, jobs=None, only=None):
         else:
             new.setdefault(f["finding"], []).append((key, f))
 
+    if os.environ.get("VERIF_LIST"):
+        for key, f in sorted(failures, key=lambda kf_: (kf_[1]["finding"], kf_[1].get("size", 0))):
+            print("#FAIL", f["finding"], "|", f["what"][:int(os.environ.get("VERIF_LIST"))])
     lines = []
     for fk in sorted(hit_known):
         lines.append(f"KNOWN-FINDING: property={cid} {known[fk]['what']} [{fk}] ({len(hit_known[fk])} items)")
